@@ -180,32 +180,124 @@ pub proof fn lemma_C03_other_statements_record_nothing(s: Stmt, f: PV, src: Seq<
 
 // ---- C03: field wiring ------------------------------------------------------------------------------------------
 pub open spec fn pname_fn() -> spec_fn(AArg) -> Seq<char> { |a: AArg| pname(a) }
-pub open spec fn dep_name_fn() -> spec_fn(Seq<char>) -> bool { |n: Seq<char>| n != "self"@ && n != "request"@ }
+/// a parameter that IS a fixture request of a fixture: no default value, not called self / request
+pub open spec fn request_fn() -> spec_fn(AArg) -> bool { |a: AArg| a.default is None && pname(a) != "self"@ && pname(a) != "request"@ }
 pub proof fn lemma_deps_of_is_filter(ps: Seq<AArg>, n: int)
     requires 0 <= n <= ps.len(),
-    ensures deps_of(ps, n) == ps.take(n).map_values(pname_fn()).filter(dep_name_fn()),
+    ensures deps_of(ps, n) == ps.take(n).filter(request_fn()).map_values(pname_fn()),
     decreases n
 {
     reveal(Seq::filter);
     if n > 0 {
         lemma_deps_of_is_filter(ps, n - 1);
-        let t = ps.take(n).map_values(pname_fn());
-        assert(t.drop_last() =~= ps.take(n - 1).map_values(pname_fn()));
-        assert(t.last() == pname(ps[n - 1]));
+        let t = ps.take(n);
+        assert(t.drop_last() =~= ps.take(n - 1));
+        assert(t.last() == ps[n - 1]);
+        let sub = ps.take(n - 1).filter(request_fn());
+        if is_dep(ps[n - 1]) {
+            assert(sub.push(ps[n - 1]).map_values(pname_fn()) =~= sub.map_values(pname_fn()).push(pname(ps[n - 1])));
+        }
+        assert(deps_of(ps, n) =~= t.filter(request_fn()).map_values(pname_fn()));
     } else {
-        assert(ps.take(0).map_values(pname_fn()) =~= Seq::<Seq<char>>::empty());
+        assert(ps.take(0).filter(request_fn()) =~= Seq::<AArg>::empty());
+        assert(deps_of(ps, n) =~= ps.take(0).filter(request_fn()).map_values(pname_fn()));
     }
 }
 //@tags C03
-/// the dependency list of a fixture is its parameter names -- positional-only, then positional, then keyword-only --
-/// minus `self` and `request`, in declaration order (duplicates cannot occur in valid Python)
+/// the dependency list of a fixture is the names of its parameters WITHOUT A DEFAULT VALUE -- positional-only, then
+/// positional, then keyword-only -- minus `self` and `request`, in declaration order (duplicates cannot occur in valid
+/// Python); a parameter with a default value is an ordinary argument, never a dependency (F-03e)
 pub proof fn lemma_C03_dependencies_are_params_in_order(v: FnV, d: Expr, f: PV, src: Seq<char>, li: Seq<usize>)
     ensures fixture_def(v, d, f, src, li).dependencies
-        == (v.args.posonlyargs@ + v.args.args@ + v.args.kwonlyargs@).map_values(pname_fn()).filter(dep_name_fn()),
+        == (v.args.posonlyargs@ + v.args.args@ + v.args.kwonlyargs@).filter(request_fn()).map_values(pname_fn()),
 {
     let ps = all_params(v.args);
     lemma_deps_of_is_filter(ps, ps.len() as int);
     assert(ps.take(ps.len() as int) =~= ps);
+}
+/// every dependency comes from a parameter that is a request (no default, not self / request)
+pub proof fn lemma_deps_from_requests(ps: Seq<AArg>, n: int, i: int)
+    requires 0 <= i < deps_of(ps, n).len(),
+    ensures exists|j: int| 0 <= j < n && j < ps.len() && is_dep(#[trigger] ps[j]) && deps_of(ps, n)[i] == pname(ps[j]),
+    decreases n
+{
+    if 0 < n <= ps.len() {
+        let a = deps_of(ps, n - 1);
+        if i < a.len() {
+            lemma_deps_from_requests(ps, n - 1, i);
+            let j = choose|j: int| 0 <= j < n - 1 && j < ps.len() && is_dep(#[trigger] ps[j]) && a[i] == pname(ps[j]);
+            assert(is_dep(ps[j]) && deps_of(ps, n)[i] == pname(ps[j]));
+        } else {
+            assert(is_dep(ps[n - 1]) && deps_of(ps, n)[i] == pname(ps[n - 1]));
+        }
+    }
+}
+/// every parameter usage comes from a parameter that is a request (fixture: is_dep, test: is_test_req)
+pub proof fn lemma_param_uses_from_requests(ps: Seq<AArg>, n: int, fixture: bool, f: PV, li: Seq<usize>, i: int)
+    requires 0 <= i < param_uses(ps, n, fixture, f, li).len(),
+    ensures exists|j: int| 0 <= j < n && j < ps.len() && !has_default(#[trigger] ps[j]) && (if fixture { is_dep(ps[j]) } else { is_test_req(ps[j]) })
+        && param_uses(ps, n, fixture, f, li)[i] == param_use(ps[j], f, li),
+    decreases n
+{
+    if 0 < n <= ps.len() {
+        let a = param_uses(ps, n - 1, fixture, f, li);
+        if i < a.len() {
+            lemma_param_uses_from_requests(ps, n - 1, fixture, f, li, i);
+            let j = choose|j: int| 0 <= j < n - 1 && j < ps.len() && !has_default(#[trigger] ps[j]) && (if fixture { is_dep(ps[j]) } else { is_test_req(ps[j]) })
+                && a[i] == param_use(ps[j], f, li);
+            assert(!has_default(ps[j]) && param_uses(ps, n, fixture, f, li)[i] == param_use(ps[j], f, li));
+        } else {
+            assert(!has_default(ps[n - 1]) && param_uses(ps, n, fixture, f, li)[i] == param_use(ps[n - 1], f, li));
+        }
+    }
+}
+/// the name / the usage stems from some parameter WITHOUT a default value
+pub open spec fn from_undefaulted_name(ps: Seq<AArg>, x: Seq<char>) -> bool { exists|j: int| 0 <= j < ps.len() && !has_default(#[trigger] ps[j]) && x == pname(ps[j]) }
+pub open spec fn from_undefaulted_use(ps: Seq<AArg>, u: UseV, f: PV, li: Seq<usize>) -> bool { exists|j: int| 0 <= j < ps.len() && !has_default(#[trigger] ps[j]) && u == param_use(ps[j], f, li) }
+//@tags C03
+/// F-03e: a parameter WITH a default value (`def fx(db, limit=10)`, `def test_x(client, *, retries=3)`) is an ordinary
+/// argument, not a fixture request: at its position k it adds NO dependency and NO usage -- neither in a fixture nor in a
+/// test function --; every dependency and every recorded parameter usage stems from a parameter WITHOUT a default; yet the
+/// parameter IS among the names the undeclared-fixture scan treats as declared (it is a local name of the body), for a
+/// fixture and for a test function alike
+pub proof fn lemma_C03_defaulted_parameter_is_not_a_request(v: FnV, d: Expr, k: int, f: PV, src: Seq<char>, li: Seq<usize>)
+    requires 0 <= k < all_params(v.args).len(), has_default(all_params(v.args)[k]),
+    ensures
+        deps_of(all_params(v.args), k + 1) == deps_of(all_params(v.args), k),
+        param_uses(all_params(v.args), k + 1, true, f, li) == param_uses(all_params(v.args), k, true, f, li),
+        param_uses(all_params(v.args), k + 1, false, f, li) == param_uses(all_params(v.args), k, false, f, li),
+        forall|i: int| 0 <= i < fixture_def(v, d, f, src, li).dependencies.len() ==>
+            from_undefaulted_name(all_params(v.args), #[trigger] fixture_def(v, d, f, src, li).dependencies[i]),
+        forall|fixture: bool, i: int| 0 <= i < param_uses(all_params(v.args), all_params(v.args).len() as int, fixture, f, li).len() ==>
+            from_undefaulted_use(all_params(v.args), #[trigger] param_uses(all_params(v.args), all_params(v.args).len() as int, fixture, f, li)[i], f, li),
+        declared_fixture(v.name, v.args).contains(pname(all_params(v.args)[k])),
+        declared_test(v.args).contains(pname(all_params(v.args)[k])),
+{
+    let ps = all_params(v.args);
+    let n = ps.len() as int;
+    let deps = fixture_def(v, d, f, src, li).dependencies;
+    assert forall|i: int| 0 <= i < deps.len() implies from_undefaulted_name(ps, #[trigger] deps[i]) by {
+        lemma_deps_from_requests(ps, n, i);
+        let j = choose|j: int| 0 <= j < n && j < ps.len() && is_dep(#[trigger] ps[j]) && deps_of(ps, n)[i] == pname(ps[j]);
+        assert(!has_default(ps[j]) && deps[i] == pname(ps[j]));
+    }
+    assert forall|fixture: bool, i: int| 0 <= i < param_uses(ps, n, fixture, f, li).len() implies
+        from_undefaulted_use(ps, #[trigger] param_uses(ps, n, fixture, f, li)[i], f, li) by {
+        lemma_param_uses_from_requests(ps, n, fixture, f, li, i);
+        let j = choose|j: int| 0 <= j < n && j < ps.len() && !has_default(#[trigger] ps[j]) && (if fixture { is_dep(ps[j]) } else { is_test_req(ps[j]) })
+            && param_uses(ps, n, fixture, f, li)[i] == param_use(ps[j], f, li);
+        assert(!has_default(ps[j]) && param_uses(ps, n, fixture, f, li)[i] == param_use(ps[j], f, li));
+    }
+    let base1 = Set::<Seq<char>>::empty().insert("self"@).insert("request"@).insert(v.name);
+    let base2 = Set::<Seq<char>>::empty().insert("self"@).insert("request"@);
+    lemma_declared_of_contains(ps, n, base1, pname(ps[k]));
+    lemma_declared_of_contains(ps, n, base2, pname(ps[k]));
+    assert(declared_fixture(v.name, v.args).contains(pname(ps[k])));
+    assert(declared_test(v.args).contains(pname(ps[k])));
+    assert(!is_dep(ps[k]) && !is_test_req(ps[k]));
+    assert(deps_of(ps, k + 1) == deps_of(ps, k));
+    assert(param_uses(ps, k + 1, true, f, li) == param_uses(ps, k, true, f, li));
+    assert(param_uses(ps, k + 1, false, f, li) == param_uses(ps, k, false, f, li));
 }
 pub proof fn lemma_declared_of_contains(ps: Seq<AArg>, n: int, base: Set<Seq<char>>, x: Seq<char>)
     requires 0 <= n <= ps.len(),
@@ -221,7 +313,7 @@ pub proof fn lemma_declared_of_contains(ps: Seq<AArg>, n: int, base: Set<Seq<cha
 /// a fixture renamed with `name=` is recorded under that name (first usable `name=`: unit ast_helpers) and ONLY under
 /// that name; its own function name is nevertheless among the names the undeclared-fixture scan treats as declared
 /// (so a recursive reference to the function name inside the body is not flagged), as are self, request and every
-/// parameter; scope defaults to function scope; the definition is filed under the analysed file, at the line of the
+/// parameter -- WITH or without a default value --; scope defaults to function scope; the definition is filed under the analysed file, at the line of the
 /// function's range start, with the name position found by find_function_name_position for the FUNCTION name
 pub proof fn lemma_C03_fixture_fields(v: FnV, d: Expr, f: PV, src: Seq<char>, li: Seq<usize>, n: Seq<char>)
     ensures
@@ -252,7 +344,8 @@ pub proof fn lemma_C03_fixture_fields(v: FnV, d: Expr, f: PV, src: Seq<char>, li
 //@tags C03
 /// exactly one definition per fixture function (the FIRST fixture decorator decides the fields), none for any other
 /// function; a fixture-decorated function named test_* records its parameters twice (once as fixture dependencies
-/// without self / request, once as test parameters without self): that is what the code does
+/// without self / request / defaulted parameters, once as test parameters without self / defaulted parameters): that is
+/// what the code does
 pub proof fn lemma_C03_function_records(v: FnV, f: PV, src: Seq<char>, li: Seq<usize>)
     ensures
         func_defs(v, f, src, li).len() == (if first_fix(v.decos, 0) is Some { 1int } else { 0int }),
@@ -367,6 +460,11 @@ pub proof fn lemma_C15_usefixtures_usages_span(ds: Seq<Expr>, f: PV, li: Seq<usi
 proof fn canary_request_is_a_dependency(ps: Seq<AArg>)
     requires ps.len() == 1, pname(ps[0]) == "request"@,
     ensures deps_of(ps, 1).len() == 1,
+{}
+/// F-03e: a parameter with a default value is recorded as a usage of a test function
+proof fn canary_defaulted_parameter_is_a_usage(ps: Seq<AArg>, f: PV, li: Seq<usize>)
+    requires ps.len() == 1, pname(ps[0]) != "self"@, pname(ps[0]) != "request"@, has_default(ps[0]),
+    ensures param_uses(ps, 1, false, f, li).len() == 1,
 {}
 /// a helper function records nothing even if it is called test_*
 proof fn canary_test_function_records_nothing(s: Stmt, f: PV, src: Seq<char>, li: Seq<usize>)
